@@ -177,7 +177,9 @@ CHECKS = {
     'C14': dict(
         text='The real run_parallel callback runs for every job index with a SYMBOLIC trial count (up to 10^6); z3 (LIA '
              'with div/mod) decides per-input totals == trials, every task >= 1 trial, distinct result files, no '
-             'exception, for every (N, C, #inputs) with N, C <= 3 (quick) / 5 (thorough).',
+             'exception, for every (N, C, #inputs) with N, C <= 3 (quick) / 7 (thorough). Realised: the real run_file '
+             '(what every task executes) writes a result file holding exactly the task\'s trials for n_runs = 1.. and '
+             'both output formats.',
         note='glob / os / multiprocessing / print inside panqec.cli are recorder stubs.',
         technique='symbolic execution of real Python (symx) + z3 LIA', ref='3/C14'),
     'C15': dict(
